@@ -4,4 +4,5 @@ import "github.com/magisterquis/curlrevshell/verifharness/props/c07"
 
 func init() {
 	registry["C07"] = prop{level: c07.Level, run: c07.Run, racePkgs: []string{"internal/hsrv", "internal/iobroker"}}
+	children["c07carry"] = c07.ChildCarry
 }
